@@ -1,3 +1,4 @@
+import ComposeVerif.Model.C01Cycles
 /-!
 # C01 — alias expansion with `!reset` / `!override` recording (`ResetProcessor.resolveReset`, loader/reset.go)
 
@@ -111,35 +112,64 @@ def setNode (n : Nat) (nd : Node) : List Node → List Node
     | 0 => nd :: t
     | k + 1 => h :: setNode k nd t
 
-/-- `resolveReset(node, path)`; `fuel` bounds the nesting depth of the recursion -/
-def resolve : Nat → St → Nat → P → Except Err (St × Option Nat)
-  | 0, _, _, _ => .error .outOfFuel
-  | fuel + 1, st, n, path0 =>
+/-- `resolveReset(node, path)`; `fuel` bounds the nesting depth of the recursion, `active` is the recursion stack
+(`p.active`, as a list with multiplicities): a node that is already nested twice inside its own expansion is
+reported as a cycle before anything else is looked at (the repair of `hang@alias-self-merge`). -/
+def resolve : Nat → St → List Nat → Nat → P → Except Err (St × Option Nat)
+  | 0, _, _, _, _ => .error .outOfFuel
+  | fuel + 1, st, active, n, path0 =>
     let path := normPath path0
+    if 2 ≤ active.count n then .error .cycle
+    else
     match st.arena[n]? with
     | none => .error .badIndex
     | some (.alias t) =>
       match checkForCycle st t path with
       | .error e => .error e
-      | .ok st' => resolve fuel st' t path
+      | .ok st' => resolve fuel st' (n :: active) t path
     | some node =>
       if node.tag = "!reset" then .ok ({ st with paths := st.paths ++ [path] }, none)
       else if node.tag = "!override" then .ok ({ st with paths := st.paths ++ [path] }, some n)
       else match node with
         | .seq tag items =>
-          match resolveItems (resolve fuel) path st items 0 with
+          match resolveItems (fun s c p => resolve fuel s (n :: active) c p) path st items 0 with
           | .error e => .error e
           | .ok (st', kept) => .ok ({ st' with arena := setNode n (.seq tag kept) st'.arena }, some n)
         | .map tag entries =>
-          match resolveEntries (resolve fuel) path st entries with
+          match resolveEntries (fun s c p => resolve fuel s (n :: active) c p) path st entries with
           | .error e => .error e
           | .ok (st', kept) => .ok ({ st' with arena := setNode n (.map tag kept) st'.arena }, some n)
         | _ => .ok (st, some n)
 
-/-- `UnmarshalYAML`: fresh visited map, start at the document root with the empty path -/
+/-! ## what follows `resolveReset` in `UnmarshalYAML`: `checkAcyclic`, then yaml.v3's `Decode` -/
+
+/-- the pointers `checkAcyclic` (and the decoder) follow from a node -/
+def succs : Node → List Nat
+  | .scalar _ => []
+  | .seq _ items => items
+  | .map _ entries => entries.map Prod.snd
+  | .alias t => [t]
+
+/-- the node graph of an arena (pointers are node indices; an index outside the arena cannot come from a YAML
+document and is dropped) -/
+def graphOf (arena : List Node) : Dep.G Nat :=
+  (List.range arena.length).map fun i =>
+    (i, ((arena[i]?.map succs).getD []).filter (fun c => decide (c < arena.length)))
+
+/-- `checkAcyclic(resolved, {})`: the same search as `graph.searchCycle`, started at the resolved root -/
+def checkAcyclic (arena : List Node) (fuel : Nat) (root : Nat) : Dep.R Nat :=
+  Dep.searchCycle (graphOf arena) fuel [root] root
+
+/-- `UnmarshalYAML` up to the call of `Decode`: fresh visited map and stack, start at the document root with the
+empty path; if a node is left, check the tree that will be decoded -/
 def run (arena : List Node) (root : Nat) (fuel : Nat) : Except Err (List P) :=
-  match resolve fuel { arena := arena, visited := [], paths := [] } root [] with
+  match resolve fuel { arena := arena, visited := [], paths := [] } [] root [] with
   | .error e => .error e
-  | .ok (st, _) => .ok st.paths
+  | .ok (st, none) => .ok st.paths
+  | .ok (st, some r) =>
+    match checkAcyclic st.arena fuel r with
+    | .ok => .ok st.paths
+    | .cycle _ => .error .cycle
+    | .outOfFuel => .error .outOfFuel
 
 end CV.C01.Reset
